@@ -3,6 +3,7 @@
 into /verif/seeded/<prop>-m<k>/ (patch.diff, demonstration test + notes, meta.json)."""
 import sys, os, re, json, shutil, subprocess
 wt, prop = sys.argv[1], sys.argv[2]
+offset = int(sys.argv[3]) if len(sys.argv) > 3 else 0   # wave 3 saves m1, m2 as m3, m4
 md = os.path.join(wt, '_mutants')
 readme = open(os.path.join(md, 'README.md')).read() if os.path.exists(os.path.join(md, 'README.md')) else ''
 verify = {}
@@ -16,7 +17,8 @@ for f in sorted(os.listdir(md)):
     m = re.match(r'(m\d+)\.diff$', f)
     if not m: continue
     k = m.group(1)
-    d = '/verif/seeded/%s-%s' % (prop.lower(), k)
+    kk = 'm%d' % (int(k[1:]) + offset)
+    d = '/verif/seeded/%s-%s' % (prop.lower(), kk)
     os.makedirs(d, exist_ok=True)
     shutil.copy(os.path.join(md, f), os.path.join(d, 'patch.diff'))
     demo = [x for x in os.listdir(md) if x.startswith(k + '_demo')]
@@ -35,7 +37,7 @@ for f in sorted(os.listdir(md)):
     meta_path = os.path.join(d, 'meta.json')
     meta = json.load(open(meta_path)) if os.path.exists(meta_path) else {}
     meta.update({
-        'property': prop, 'id': '%s-%s' % (prop.lower(), k), 'title': title,
+        'property': prop, 'id': '%s-%s' % (prop.lower(), kk), 'title': title,
         'needs_to_manifest': needs,
         'base_commit': base,
         'produced_by': 'fresh sub-agent given only the property text and its own scratch worktree',
